@@ -6,6 +6,8 @@ BatteryManager fed the same data through the fake API.
 
 from __future__ import annotations
 
+import asyncio
+from datetime import timedelta
 from typing import Any
 
 from hypothesis import strategies as st
@@ -33,7 +35,10 @@ RULE = {
         "non-zero values the advertised bounds admit; each probe is sent to a real BatteryManager with adjust_power True and "
         "False. Oracle: never OutOfBounds (strictly outside the exclusion zone; exactly on an exclusion bound is recorded but "
         "not demanded), |p| >= sum of group minimum powers, enforced inclusion bounds (read from an OutOfBounds provoked just "
-        "outside) == advertised. Non-trivial = >=2 groups with different exclusion bounds or a shared inverter/battery; "
+        "outside) == advertised. Then, on the same manager, one generated battery reports all four bounds scaled by "
+        "0.5 / 2 / 0 in a message stamped 1 ms older than, equal to or 1 ms newer than its siblings' latest message, delivered "
+        "after a request has been served on the siblings' data; advertised bounds are recomputed from the latest received "
+        "data and the whole probe round is repeated. Non-trivial = >=2 groups with different exclusion bounds or a shared inverter/battery; "
         "distinct by SHA-1 of the canonical JSON case."
     )
 }
@@ -42,12 +47,22 @@ ASSUMPTIONS = [
     "bounds on an integer/half grid so that summation order cannot create 1-ulp differences",
     "a probe exactly on an advertised exclusion bound is not required to be accepted (SystemBounds.__contains__ excludes it)",
 ]
-MIN_LABELS = {"C17": {"shared": 0.3, "multi_group_diff_excl": 0.2, "probe_on_incl_bound": 0.5}}
+MIN_LABELS = {"C17": {"shared": 0.3, "multi_group_diff_excl": 0.2, "probe_on_incl_bound": 0.5, "data_update_phase": 0.5,
+                      "update_with_older_timestamp_than_sibling": 0.1}}
 
 
 def strategy(tier: str, pid: str = "C17") -> st.SearchStrategy[Any]:
     del pid
-    return st.fixed_dictionaries({"groups": batsys.groups(max_groups=4 if tier == "quick" else 5, grid_only=True)})
+    return st.fixed_dictionaries({
+        "groups": batsys.groups(max_groups=4 if tier == "quick" else 5, grid_only=True),
+        # second phase on the same manager: one battery reports scaled bounds in a message stamped slightly
+        # older / equal / newer than what its siblings sent last (the latest *received* data must govern)
+        "update": st.fixed_dictionaries({
+            "group": st.integers(0, 4), "bat": st.integers(0, 2),
+            "factor": st.sampled_from([0.5, 2.0, 0.0]),
+            "ts_offset_ms": st.sampled_from([-1, -1, 0, 1]),
+        }),
+    })
 
 
 def _metrics(case: dict[str, Any]) -> tuple[dict[int, ComponentMetricsData], set[int]]:
@@ -78,52 +93,92 @@ def run_case(case: Any, pid: str) -> Verdict:
     if len(groups) >= 2 and len(excls) >= 2:
         v.labels.add("multi_group_diff_excl")
     v.nontrivial = shared or (len(groups) >= 2 and len(excls) >= 2)
-    min_up = sum(gb["min_power_up"] for gb in gbs)
-    min_lo = sum(gb["min_power_lo"] for gb in gbs)
 
     async def scenario() -> None:
         async with batsys.ManagerWorld(groups) as mw:
-            data, bats = _metrics(case)
-            sb = PowerBoundsCalculator(bats).calculate(data, set(bats))
-            if sb.inclusion_bounds is None or sb.exclusion_bounds is None:
-                v.fail("complete data but the calculator advertises no bounds")
+            await probe_round(mw, case, "initial data")
+            if v.violations:
                 return
-            il, iu = sb.inclusion_bounds.lower.as_watts(), sb.inclusion_bounds.upper.as_watts()
-            el, eu = sb.exclusion_bounds.lower.as_watts(), sb.exclusion_bounds.upper.as_watts()
-            if not (il <= el and eu <= iu):
-                # inverter exclusion bounds may add up to more than the group can take; the
-                # property says nothing about that shape, it only leaves fewer admitted probes
-                v.labels.add("advertised_exclusion_exceeds_inclusion")
-            probes = set()
-            for b in (il, el, eu, iu):
-                probes |= {b, b - 1.0, b + 1.0, b - 0.5, b + 0.5}
-            for p in sorted(probes):
-                if p == 0 or not il <= p <= iu or el < p < eu:
-                    continue
-                on_excl = p in (el, eu)
-                if p in (il, iu):
-                    v.labels.add("probe_on_incl_bound")
-                if on_excl:
-                    v.labels.add("probe_on_excl_bound")
-                if (p > 0 and p < min_up) or (p < 0 and -p < min_lo):
-                    v.fail(f"advertised bounds admit {p} W but the groups' minimum powers sum to "
-                           f"{min_up if p > 0 else -min_lo} W")
-                for adjust in (True, False):
-                    res = await mw.request(p, adjust_power=adjust)
-                    if isinstance(res, OutOfBounds) and not on_excl:
-                        v.fail(f"{p} W is inside advertised bounds incl [{il}, {iu}] excl [{el}, {eu}] but "
-                               f"adjust_power={adjust} was answered OutOfBounds {res.bounds}")
-                    elif isinstance(res, Error):
-                        v.fail(f"{p} W adjust_power={adjust} answered Error: {res.msg}")
-            # enforced inclusion bounds, read from a rejection provoked just outside
-            for outside, which in ((iu + 1.0, "upper"), (il - 1.0, "lower")):
-                res = await mw.request(outside, adjust_power=False)
-                if not isinstance(res, OutOfBounds):
-                    v.fail(f"{outside} W is outside the advertised inclusion bounds [{il}, {iu}] but was not rejected "
-                           f"({type(res).__name__}): enforced and advertised {which} inclusion bound differ")
-                elif (res.bounds.inclusion_lower, res.bounds.inclusion_upper) != (il, iu):
-                    v.fail(f"enforced inclusion bounds [{res.bounds.inclusion_lower}, {res.bounds.inclusion_upper}] != "
-                           f"advertised [{il}, {iu}]")
+            # second phase: updated bounds for one battery, older / equal / newer timestamp
+            upd = case.get("update")
+            if not upd:
+                return
+            gi = upd["group"] % len(groups)
+            bi = upd["bat"] % len(groups[gi]["bats"])
+            new_groups = [dict(g, bats=[dict(b) for b in g["bats"]], invs=[dict(i) for i in g["invs"]]) for g in groups]
+            for key in ("iu", "il", "eu", "el"):
+                new_groups[gi]["bats"][bi][key] = new_groups[gi]["bats"][bi][key] * upd["factor"] + 0.0
+            gb = batsys.group_bounds(new_groups[gi])
+            if gb["min_power_up"] > gb["incl_up"] or gb["min_power_lo"] > gb["incl_lo"]:
+                v.labels.add("update_skipped_inconsistent")
+                return
+            cid = mw.ids[gi][0][bi]
+            await asyncio.sleep(1.0)   # the battery's own messages stay in time order
+            # everything else reports again first and a request is served on that data; only then does the
+            # changed battery's message arrive, stamped older / equal / newer than its siblings' latest
+            t_feed = world.now()
+            stamp = t_feed + timedelta(milliseconds=upd["ts_offset_ms"])
+            for g, (bids, iids) in zip(groups, mw.ids):
+                for other, b in zip(bids, g["bats"]):
+                    if other != cid:
+                        await mw.api.send(other, batsys.make_battery(other, b, t_feed))
+                for other, i in zip(iids, g["invs"]):
+                    await mw.api.send(other, batsys.make_inverter(other, i, t_feed))
+            await world.settle(2)
+            await mw.request(1.0, adjust_power=True)
+            await mw.api.send(cid, batsys.make_battery(cid, new_groups[gi]["bats"][bi], stamp))
+            await world.settle(2)
+            v.labels.add("data_update_phase")
+            if upd["ts_offset_ms"] <= 0 and len(groups[gi]["bats"]) >= 2:
+                v.labels.add("update_with_older_timestamp_than_sibling")
+            await probe_round(mw, dict(case, groups=new_groups), f"after battery {cid} reported bounds scaled by {upd['factor']}")
+
+    async def probe_round(mw: Any, case_now: dict[str, Any], phase: str) -> None:
+        groups_now = case_now["groups"]
+        gbs_now = [batsys.group_bounds(g) for g in groups_now]
+        min_up = sum(gb["min_power_up"] for gb in gbs_now)
+        min_lo = sum(gb["min_power_lo"] for gb in gbs_now)
+        data, bats = _metrics(case_now)
+        sb = PowerBoundsCalculator(bats).calculate(data, set(bats))
+        if sb.inclusion_bounds is None or sb.exclusion_bounds is None:
+            v.fail("complete data but the calculator advertises no bounds")
+            return
+        il, iu = sb.inclusion_bounds.lower.as_watts(), sb.inclusion_bounds.upper.as_watts()
+        el, eu = sb.exclusion_bounds.lower.as_watts(), sb.exclusion_bounds.upper.as_watts()
+        if not (il <= el and eu <= iu):
+            # inverter exclusion bounds may add up to more than the group can take; the
+            # property says nothing about that shape, it only leaves fewer admitted probes
+            v.labels.add("advertised_exclusion_exceeds_inclusion")
+        probes = set()
+        for b in (il, el, eu, iu):
+            probes |= {b, b - 1.0, b + 1.0, b - 0.5, b + 0.5}
+        for p in sorted(probes):
+            if p == 0 or not il <= p <= iu or el < p < eu:
+                continue
+            on_excl = p in (el, eu)
+            if p in (il, iu):
+                v.labels.add("probe_on_incl_bound")
+            if on_excl:
+                v.labels.add("probe_on_excl_bound")
+            if (p > 0 and p < min_up) or (p < 0 and -p < min_lo):
+                v.fail(f"[{phase}] advertised bounds admit {p} W but the groups' minimum powers sum to "
+                       f"{min_up if p > 0 else -min_lo} W")
+            for adjust in (True, False):
+                res = await mw.request(p, adjust_power=adjust)
+                if isinstance(res, OutOfBounds) and not on_excl:
+                    v.fail(f"[{phase}] {p} W is inside advertised bounds incl [{il}, {iu}] excl [{el}, {eu}] but "
+                           f"adjust_power={adjust} was answered OutOfBounds {res.bounds}")
+                elif isinstance(res, Error):
+                    v.fail(f"{p} W adjust_power={adjust} answered Error: {res.msg}")
+        # enforced inclusion bounds, read from a rejection provoked just outside
+        for outside, which in ((iu + 1.0, "upper"), (il - 1.0, "lower")):
+            res = await mw.request(outside, adjust_power=False)
+            if not isinstance(res, OutOfBounds):
+                v.fail(f"{outside} W is outside the advertised inclusion bounds [{il}, {iu}] but was not rejected "
+                       f"({type(res).__name__}): enforced and advertised {which} inclusion bound differ")
+            elif (res.bounds.inclusion_lower, res.bounds.inclusion_upper) != (il, iu):
+                v.fail(f"[{phase}] enforced inclusion bounds [{res.bounds.inclusion_lower}, {res.bounds.inclusion_upper}] != "
+                       f"advertised [{il}, {iu}]")
 
     try:
         world.run(scenario)
